@@ -153,7 +153,12 @@ fn make_list(case: &Case, class: u32, salt: u32, optional: bool) -> Tensor {
             .collect();
         Tensor::nestedoptional(ts)
     } else {
-        let ts: Vec<Tensor> = (0..case.members).map(|j| tens::build(&case.dims, &contents(n, class, case.seed.wrapping_add(salt + 17 * j as u32)))).collect();
+        let mut ts: Vec<Tensor> = (0..case.members).map(|j| tens::build(&case.dims, &contents(n, class, case.seed.wrapping_add(salt + 17 * j as u32)))).collect();
+        // one list in four is two levels deep: its last members form a nested list of their own
+        if (case.seed >> 13) & 3 == 0 && ts.len() >= 2 {
+            let inner = ts.split_off(ts.len() - 1 - (case.seed as usize >> 15) % (ts.len() - 1).max(1));
+            ts.push(Tensor::nested(inner));
+        }
         Tensor::nested(ts)
     }
 }
@@ -167,6 +172,9 @@ fn check(case: &Case, ev: &mut CaseEv) -> CheckResult {
     ev.set_sig(&(case.op, &case.dims, case.nested, case.mismatch_op, case.mismatch_kind, case.k));
     ev.class(format!("{:?}", case.op));
     ev.class(format!("rank{}", case.dims.len()));
+    if case.nested == 1 && (case.seed >> 13) & 3 == 0 && case.members >= 2 {
+        ev.class("nested list two levels deep");
+    }
     if case.nested > 0 {
         ev.class("nested-list");
     }
@@ -473,7 +481,7 @@ impl Prop for C15 {
         t.pick(2_000_000, 200_000_000)
     }
     fn rule(&self) -> String {
-        "tape-decoded (operation in {add, sub, mul, scaled Hadamard, hadamard3d, scalar division, mean over k=1..5, outer product, matrix-vector product, transpose, clamp, shape-mismatch refusal} x rank 1..4 (nested / optional-nested lists for add and scalar division) x extents 1..4 per axis (1/6 of the cases: a wide axis of 20..300; 1/12: a matrix with both extents in 17..70) x content classes (dyadic, O(1), mixed magnitudes 2^-20..2^20, signed zeros + subnormals, 1e18) x scalars). Oracle: scalar IEEE reference per element (bitwise for add/sub/mul/div/outer/transpose/clamp, 2 ulp of the exact product for Hadamard, summation bound for mean and dot; for means of up to four operands additionally: the result is the correctly rounded quotient of some single-precision sum of the operands, any order and bracketing), shape field unchanged and consistent with the data, mismatched operands (other extent / other rank / permuted extents / nested list with one differing member) must panic. Non-trivial: rank >= 2 with >= 2 axes > 1. Distinct = (operation, rank, extents, nesting, mismatch kind, k).".into()
+        "tape-decoded (operation in {add, sub, mul, scaled Hadamard, hadamard3d, scalar division, mean over k=1..5, outer product, matrix-vector product, transpose, clamp, shape-mismatch refusal} x rank 1..4 (nested / optional-nested lists for add and scalar division, one nested list in four two levels deep) x extents 1..4 per axis (1/6 of the cases: a wide axis of 20..300; 1/12: a matrix with both extents in 17..70) x content classes (dyadic, O(1), mixed magnitudes 2^-20..2^20, signed zeros + subnormals, 1e18) x scalars). Oracle: scalar IEEE reference per element (bitwise for add/sub/mul/div/outer/transpose/clamp, 2 ulp of the exact product for Hadamard, summation bound for mean and dot; for means of up to four operands additionally: the result is the correctly rounded quotient of some single-precision sum of the operands, any order and bracketing), shape field unchanged and consistent with the data, mismatched operands (other extent / other rank / permuted extents / nested list with one differing member) must panic. Non-trivial: rank >= 2 with >= 2 axes > 1. Distinct = (operation, rank, extents, nesting, mismatch kind, k).".into()
     }
     fn run_case(&self, tape: &[u32], ev: &mut CaseEv) -> CheckResult {
         check(&decode(tape), ev)
